@@ -104,11 +104,11 @@ def r_priority(m, rep, R='R1.1'):
 def r_best(m, rep, R='R1.2b'):
     """definitions of the atoms BT, BD, D_all and of the per-word queues."""
     v = m.init_var
-    lo, cond, step = m.init_header
-    ok = lo == LIT(0) and step and canon(cond) == canon(('bin', '<', V(v), V(m.p_len)))
-    rep.check(ok, R, _w(m.init_loop.line), 'init-loop:range',
-              'initialisation loop visits every token 0..length-1',
-              'initialisation loop header is (%s; %s)' % (show(lo), show(cond)))
+    for loop_, lo, cond, step in m.init_headers:
+        ok = lo == LIT(0) and step and canon(cond) == canon(('bin', '<', V(v), V(m.p_len)))
+        rep.check(ok, R, _w(loop_.line), 'init-loop:range',
+                  'initialisation loop visits every token 0..length-1',
+                  'initialisation loop header is (%s; %s)' % (show(lo), show(cond)))
     rep.check(m.BT is not None, R, _w(m.init_loop.line), 'BT:def',
               'BT[t] := top of word t\'s queue (%s)' % canon(m.best_tag_term),
               'no vector is assigned %s per token' % canon(m.best_tag_term))
@@ -125,12 +125,16 @@ def r_best(m, rep, R='R1.2b'):
         rep.check(ok, R, _w(d.line if d else 0), 'DALL:init', 'D_all starts at 0', 'D_all does not start at 0')
     # queue fill: scored[t].emplace(TAG(t, c), c) for c in [0, num_tags)
     fills = []
-    body = cxx.for_parts(m.init_loop)[3]
-    for n in body.find('CXXMemberCallExpr'):
-        c = strip(n.kids[0])
-        if c.name in ('emplace', 'push') and c.kids and \
-                canon(term(c.kids[0], m.env)) == canon(IDX(V(m.scored), V(v))):
-            fills.append(n)
+    fill_var = {}
+    for loop_ in m.init_loops:
+        body = cxx.for_parts(loop_)[3]
+        v_i = m.init_vars[id(loop_)]
+        for n in body.find('CXXMemberCallExpr'):
+            c = strip(n.kids[0])
+            if c.name in ('emplace', 'push') and c.kids and \
+                    canon(term(c.kids[0], m.env)) == canon(IDX(V(m.scored), V(v_i))):
+                fills.append(n)
+                fill_var[id(n)] = v_i
     okfill = False
     msg = 'queue of word t is not filled'
     if len(fills) == 1:
@@ -140,12 +144,12 @@ def r_best(m, rep, R='R1.2b'):
             args = list(args[0][-1])
         loop = None
         for p in n.ancestors():
-            if p.kind == 'ForStmt' and p is not m.init_loop:
+            if p.kind == 'ForStmt' and not any(p is l_ for l_ in m.init_loops):
                 loop = p
                 break
         if loop is not None and len(args) == 2:
             cv, clo, ccond, cstep, _ = m._loop_header(loop)
-            want = [IDX(V(m.TAG), V(v), V(cv)), V(cv)]
+            want = [IDX(V(m.TAG), V(fill_var[id(n)]), V(cv)), V(cv)]
             okfill = (clo == LIT(0) and cstep
                       and canon(ccond) == canon(('bin', '<', V(cv), M(V(m.p_config), 'num_tags')))
                       and [canon(a) for a in args] == [canon(w) for w in want])
@@ -186,7 +190,7 @@ def r_best(m, rep, R='R1.2b'):
               'locals with static / thread storage keep their contents between sentences: %s' % [(n_, m.locals[n_].storage) for n_ in persistent])
     # statement order: init loop < outside calls < leaf loop < search loop
     idx = {id(s): i for i, s in enumerate(m.top)}
-    order = [idx[id(m.init_loop)]] + [idx[id(o[3])] for o in m.outside] + [idx[id(m.leaf_loop)], idx[id(m.main_loop)]]
+    order = [max(idx[id(l_)] for l_ in m.init_loops)] + [idx[id(o[3])] for o in m.outside] + [idx[id(m.leaf_loop)], idx[id(m.main_loop)]]
     rep.check(order[0] < min(order[1:3]) and max(order[1:3]) < order[3] < order[4], R,
               _w(m.init_loop.line), 'order', 'atoms are computed before the agenda is seeded, seeding before search',
               'statement order of initialisation / outside tables / seeding / search is wrong')
@@ -780,10 +784,9 @@ def r_backpointers(m, rep, R):
     for s in m.by_kind.get('binary', []):
         L, Rr, E, O, rule, other, cell = _binary_roles(m, s)
         rv = V(rule[1])
-        lam = 'lambda:' + m.lam['binary']
-        want_range = ('deref', ('call', lam, (M(L, 'cat'), M(Rr, 'cat'))))
+        want_range = ('deref', ('call', 'rules:binary', (M(L, 'cat'), M(Rr, 'cat'))))
         side = 'expanded-left' if E == L else 'neighbour-left'
-        rep.check(rule[2] is not None and canon(rule[2]) == canon(want_range), R, s.where(), 'binary[%s]:rule-args' % side,
+        rep.check(rule[2] is not None and canon(m.rules_call(rule[2])) == canon(want_range), R, s.where(), 'binary[%s]:rule-args' % side,
                   'results come from apply_binary_rules(left.cat, right.cat) for the very items stored as left/right',
                   'rule loop ranges over %s, expected %s' % (canon(rule[2]) if rule[2] else '?', canon(want_range)))
         rep.check(other[2] is not None and canon(other[2]) == canon(('deref', V(cell[1]))), R, s.where(),
@@ -816,7 +819,7 @@ def r_backpointers(m, rep, R):
         Lp = f['left']
         ranges = [c for c in s.ctx if c[0] == 'range']
         ok = bool(ranges) and ranges[-1][2] is not None and \
-            canon(ranges[-1][2]) == canon(('deref', ('call', 'lambda:' + m.lam['unary'], (M(Lp, 'cat'),))))
+            canon(m.rules_call(ranges[-1][2])) == canon(('deref', ('call', 'rules:unary', (M(Lp, 'cat'),))))
         rep.check(ok, R, s.where(), 'unary:rule-args', 'unary results come from apply_unary_rules(child.cat) of the stored child',
                   'unary loop ranges over %s' % (canon(ranges[-1][2]) if ranges and ranges[-1][2] else '?'))
         rv = V(ranges[-1][1]) if ranges else V('?')
@@ -924,6 +927,20 @@ def r_cache(m, rep, R):
     """both rule lambdas memoise per (x, y) key: the callback is asked only when the key is absent, nothing is erased or
     overwritten, and the stored vector is what is returned.  The two lambdas may share one helper lambda."""
     for kind, cbparam in (('binary', m.p_bin), ('unary', m.p_un)):
+        if getattr(m, 'lookup_fn', None) is not None and kind not in m.lam:
+            # one lookup function that is handed the callback: judged once per kind with its parameters bound
+            lf = m.lookup_fn
+            name = lf['name']
+            fn = lf['node']
+            env = cxx.Env(fn)
+            pr = lf['params']
+            w = _w(fn.line, name)
+            core_fn, core_name = fn, name
+            bind = {'cb': lf['cb'], 'x': lf['x'], 'y': lf['y']}
+            # every use in parse_sentence passes this kind's callback with the matching ids (checked where the results
+            # are consumed: the canonical spelling rules:<kind> only arises for the right callback)
+            _r_cache_core(m, rep, R, kind, cbparam, core_fn, core_name, bind, cache_term=V(pr[[i for i, p_ in enumerate(cxx.params_of(fn)) if 'cache' in (p_.type or '') or 'unordered_map' in (p_.dtype or '')][0]]) if any('cache' in (p_.type or '') or 'unordered_map' in (p_.dtype or '') for p_ in cxx.params_of(fn)) else V(m.p_cache), scaffold=lf['scaffold'])
+            continue
         name = m.lam[kind]
         fn = _call_op(m, name)
         env = cxx.Env(fn)
@@ -945,86 +962,90 @@ def r_cache(m, rep, R):
                           '%s lambda forwards (%s callback, its own ids%s) to the shared lookup %s' % (kind, kind, '' if kind == 'binary' else ', UINT_MAX', core_name),
                           '%s lambda forwards %s to %s' % (kind, [show(a) for a in args], core_name))
                 bind = {'cb': cpr[0], 'x': cpr[1], 'y': cpr[2]}
-        fn2 = core_fn
-        env2 = cxx.Env(fn2)
-        pr2 = [p.name for p in cxx.params_of(fn2)]
-        if bind is None:
-            bind = {'cb': None, 'x': pr2[0], 'y': pr2[1] if kind == 'binary' and len(pr2) > 1 else None}
-        w2 = _w(fn2.line, 'parse_sentence::' + core_name)
-        keyv = None
-        for v in fn2.find('VarDecl'):
-            if (v.type or '').replace('const ', '').strip() in ('std::pair<unsigned int, unsigned int>', 'pair<unsigned int, unsigned int>') \
-                    or (v.dtype or '').replace('const ', '').strip() == 'std::pair<unsigned int, unsigned int>':
-                keyv = v
-        if keyv is None:
-            rep.violation(R, w2, 'cache:%s:key' % kind, 'cache key pair not found in lambda %s' % core_name)
-            continue
-        kt = term(env2.init_of(keyv), env2)
-        kargs = kt[2] if kt[0] == 'ctor' else (kt[1] if kt[0] == 'init' else ())
-        if bind['y'] is not None:
-            okk = [canon(a) for a in kargs] == [canon(V(bind['x'])), canon(V(bind['y']))]
-        else:
-            okk = len(kargs) == 2 and canon(kargs[0]) == canon(V(bind['x'])) and \
-                not [x for x in subterms(kargs[1]) if x[0] in ('var', 'mem', 'call', 'mcall', 'idx')]
-        rep.check(okk, R, w2, 'cache:%s:key' % kind, '%s cache key is built from the argument ids in order' % kind,
-                  '%s cache key is (%s)' % (kind, ', '.join(canon(a) for a in kargs)))
-        K = V(keyv.name)
-        cache = V(m.p_cache)
-        # the iterator-based variant: auto it = cache->find(key)
-        itv = None
-        for v in fn2.find('VarDecl'):
-            i = env2.init_of(v)
-            if i is not None and canon(term(i, env2)) == canon(('mcall', cache, 'find', (K,))):
-                itv = V(v.name)
-        absent = {canon(('bin', '==', ('mcall', cache, 'count', (K,)), LIT(0))), canon(('un', '!', ('mcall', cache, 'count', (K,))))}
-        if itv is not None:
-            absent.add(canon(('bin', '==', itv, ('mcall', cache, 'end', ()))))
-        muts = []
-        for n in fn2.find('CXXMemberCallExpr'):
-            c = strip(n.kids[0])
-            if c.kids and term(c.kids[0], env2) == cache and c.name not in ('count', 'at', 'find', 'end', 'cend'):
-                muts.append((c.name, n))
-        ok = len(muts) == 1 and muts[0][0] in ('emplace', 'insert')
-        if ok:
-            n = muts[0][1]
-            ctx = cxx.context(n, env2)
-            ok = any(c[0] == 'if' and c[2] is True and canon(c[1]) in absent for c in ctx)
-            args = [term(a, env2) for a in n.kids[1:]]
-            ok = ok and len(args) == 2 and args[0] == K
-        rep.check(ok, R, w2, 'cache:%s:fill' % kind,
-                  '%s cache entry is created only when the key is absent and is never overwritten or erased' % kind,
-                  '%s cache is modified by %s' % (kind, [x[0] for x in muts]))
-        P2 = Paths(fn2, env2)
-        rets = [p_[2] for p_ in P2.paths]
-        good = {canon(('addr', ('mcall', cache, 'at', (K,))))}
-        if itv is not None:
-            good.add(canon(('addr', M(itv, 'second'))))
-        ok = bool(rets) and all(r is not None and canon(r) in good for r in rets)
-        rep.check(ok, R, w2, 'cache:%s:return' % kind, '%s lookup returns the stored vector for the key' % kind,
-                  '%s lookup returns %s' % (kind, [canon(r) if r else None for r in rets]))
-        sc = [term(n, env2) for n in fn2.find('CallExpr') if strip(n.kids[0]).ref == m.p_scaffold]
-        want_cb = V(bind['cb']) if bind['cb'] else V(cbparam)
-        ok = len(sc) == 1 and len(sc[0][2]) == 4 and sc[0][2][0] == want_cb and sc[0][2][1] == V(bind['x'])
-        if ok and bind['y'] is not None:
-            ok = sc[0][2][2] == V(bind['y'])
-        rep.check(ok, R, w2, 'cache:%s:callback' % kind, '%s lookup asks the %s callback with the same ids' % (kind, kind),
-                  '%s lookup calls scaffold as %s' % (kind, [show(x) for x in sc]))
-        # what the callback filled in is what is stored: the result vector is touched by nothing between the callback
-        # and the cache (positions in it are the rule ids the finalizer indexes with)
-        sc_nodes = [n for n in fn2.find('CallExpr') if strip(n.kids[0]).ref == m.p_scaffold]
-        if len(sc_nodes) == 1 and len(sc_nodes[0].kids) == 5:
-            res_refs = [x for x in sc_nodes[0].kids[4].walk() if x.kind == 'DeclRefExpr' and x.ref]
-            if res_refs:
-                rv = res_refs[0].ref
-                inside = set()
-                for holder in sc_nodes + [mm[1] for mm in muts]:
-                    for x in holder.walk():
-                        inside.add(id(x))
-                other = [x for x in fn2.find('DeclRefExpr') if x.ref == rv and id(x) not in inside]
-                rep.check(not other, R, w2, 'cache:%s:stored-unchanged' % kind,
-                          'the vector filled by the %s callback goes into the cache untouched (rule ids are positions in it)' % kind,
-                          'the result vector `%s` is also used at line(s) %s between the callback and the cache: entries may be dropped or moved, and rule ids no longer index the grammar\'s result list'
-                          % (rv, sorted({x.line for x in other if x.line})))
+        _r_cache_core(m, rep, R, kind, cbparam, core_fn, core_name, bind)
+
+
+def _r_cache_core(m, rep, R, kind, cbparam, core_fn, core_name, bind, cache_term=None, scaffold=None):
+    fn2 = core_fn
+    env2 = cxx.Env(fn2)
+    pr2 = [p.name for p in cxx.params_of(fn2)]
+    if bind is None:
+        bind = {'cb': None, 'x': pr2[0], 'y': pr2[1] if kind == 'binary' and len(pr2) > 1 else None}
+    w2 = _w(fn2.line, 'parse_sentence::' + core_name)
+    keyv = None
+    for v in fn2.find('VarDecl'):
+        if (v.type or '').replace('const ', '').strip() in ('std::pair<unsigned int, unsigned int>', 'pair<unsigned int, unsigned int>') \
+                or (v.dtype or '').replace('const ', '').strip() == 'std::pair<unsigned int, unsigned int>':
+            keyv = v
+    if keyv is None:
+        rep.violation(R, w2, 'cache:%s:key' % kind, 'cache key pair not found in lambda %s' % core_name)
+        return
+    kt = term(env2.init_of(keyv), env2)
+    kargs = kt[2] if kt[0] == 'ctor' else (kt[1] if kt[0] == 'init' else ())
+    if bind['y'] is not None:
+        okk = [canon(a) for a in kargs] == [canon(V(bind['x'])), canon(V(bind['y']))]
+    else:
+        okk = len(kargs) == 2 and canon(kargs[0]) == canon(V(bind['x'])) and \
+            not [x for x in subterms(kargs[1]) if x[0] in ('var', 'mem', 'call', 'mcall', 'idx')]
+    rep.check(okk, R, w2, 'cache:%s:key' % kind, '%s cache key is built from the argument ids in order' % kind,
+              '%s cache key is (%s)' % (kind, ', '.join(canon(a) for a in kargs)))
+    K = V(keyv.name)
+    cache = cache_term if cache_term is not None else V(m.p_cache)
+    # the iterator-based variant: auto it = cache->find(key)
+    itv = None
+    for v in fn2.find('VarDecl'):
+        i = env2.init_of(v)
+        if i is not None and canon(term(i, env2)) == canon(('mcall', cache, 'find', (K,))):
+            itv = V(v.name)
+    absent = {canon(('bin', '==', ('mcall', cache, 'count', (K,)), LIT(0))), canon(('un', '!', ('mcall', cache, 'count', (K,))))}
+    if itv is not None:
+        absent.add(canon(('bin', '==', itv, ('mcall', cache, 'end', ()))))
+    muts = []
+    for n in fn2.find('CXXMemberCallExpr'):
+        c = strip(n.kids[0])
+        if c.kids and term(c.kids[0], env2) == cache and c.name not in ('count', 'at', 'find', 'end', 'cend'):
+            muts.append((c.name, n))
+    ok = len(muts) == 1 and muts[0][0] in ('emplace', 'insert')
+    if ok:
+        n = muts[0][1]
+        ctx = cxx.context(n, env2)
+        ok = any(c[0] == 'if' and c[2] is True and canon(c[1]) in absent for c in ctx)
+        args = [term(a, env2) for a in n.kids[1:]]
+        ok = ok and len(args) == 2 and args[0] == K
+    rep.check(ok, R, w2, 'cache:%s:fill' % kind,
+              '%s cache entry is created only when the key is absent and is never overwritten or erased' % kind,
+              '%s cache is modified by %s' % (kind, [x[0] for x in muts]))
+    P2 = Paths(fn2, env2)
+    rets = [p_[2] for p_ in P2.paths]
+    good = {canon(('addr', ('mcall', cache, 'at', (K,))))}
+    if itv is not None:
+        good.add(canon(('addr', M(itv, 'second'))))
+    ok = bool(rets) and all(r is not None and canon(r) in good for r in rets)
+    rep.check(ok, R, w2, 'cache:%s:return' % kind, '%s lookup returns the stored vector for the key' % kind,
+              '%s lookup returns %s' % (kind, [canon(r) if r else None for r in rets]))
+    sc = [term(n, env2) for n in fn2.find('CallExpr') if strip(n.kids[0]).ref == (scaffold or m.p_scaffold)]
+    want_cb = V(bind['cb']) if bind['cb'] else V(cbparam)
+    ok = len(sc) == 1 and len(sc[0][2]) == 4 and sc[0][2][0] == want_cb and sc[0][2][1] == V(bind['x'])
+    if ok and bind['y'] is not None:
+        ok = sc[0][2][2] == V(bind['y'])
+    rep.check(ok, R, w2, 'cache:%s:callback' % kind, '%s lookup asks the %s callback with the same ids' % (kind, kind),
+              '%s lookup calls scaffold as %s' % (kind, [show(x) for x in sc]))
+    # what the callback filled in is what is stored: the result vector is touched by nothing between the callback
+    # and the cache (positions in it are the rule ids the finalizer indexes with)
+    sc_nodes = [n for n in fn2.find('CallExpr') if strip(n.kids[0]).ref == (scaffold or m.p_scaffold)]
+    if len(sc_nodes) == 1 and len(sc_nodes[0].kids) == 5:
+        res_refs = [x for x in sc_nodes[0].kids[4].walk() if x.kind == 'DeclRefExpr' and x.ref]
+        if res_refs:
+            rv = res_refs[0].ref
+            inside = set()
+            for holder in sc_nodes + [mm[1] for mm in muts]:
+                for x in holder.walk():
+                    inside.add(id(x))
+            other = [x for x in fn2.find('DeclRefExpr') if x.ref == rv and id(x) not in inside]
+            rep.check(not other, R, w2, 'cache:%s:stored-unchanged' % kind,
+                      'the vector filled by the %s callback goes into the cache untouched (rule ids are positions in it)' % kind,
+                      'the result vector `%s` is also used at line(s) %s between the callback and the cache: entries may be dropped or moved, and rule ids no longer index the grammar\'s result list'
+                      % (rv, sorted({x.line for x in other if x.line})))
 
 
 def r_items_immutable(m, rep, R):
